@@ -29,6 +29,18 @@ import re
 import vlib
 from vlib import Inconclusive
 
+WORKERS = int(os.environ.get("VERIF_TLC_WORKERS", min(vlib.NCPU, 8)))
+# VERIF_CAP=<n>: smoke-run of a tier: sample sizes capped at n, exhaustive configs with one node less
+CAP = int(os.environ.get("VERIF_CAP", "0"))
+
+
+def capped_cfg(cfg):
+    if not CAP:
+        return {}
+    txt = open(os.path.join(vlib.SPECS, cfg)).read()
+    txt = re.sub(r"MCN = (\d+)", lambda m: "MCN = %d" % max(1, int(m.group(1)) - 1), txt)
+    return {cfg: txt}
+
 # ---------------------------------------------------------------------------------------------
 # lattice tables for the seeded case sampler (mirrors specs/Lattices.tla; TLC re-checks every
 # sampled table with the invariant CaseMonotone, so a slip here is INCONCLUSIVE, never a verdict)
@@ -223,8 +235,8 @@ def dense_model_and_replay(ctx, helper, cfgs, nsample):
     cases_json = {"cases": [sample_dense_case(ctx.rng) for _ in range(nsample)]}
     allcases, states, gen, walls = [], 0, 0, {}
     for cfg in cfgs:
-        r = vlib.run_tlc(ctx, "MCDataflow", cfg, workers=min(vlib.NCPU, 8), timeout=5400,
-                         extra_files={"dataflow_cases.json": json.dumps(cases_json if cfg == cfgs[0] else {"cases": []})})
+        r = vlib.run_tlc(ctx, "MCDataflow", cfg, workers=WORKERS, timeout=5400,
+                         extra_files=dict(capped_cfg(cfg), **{"dataflow_cases.json": json.dumps(cases_json if cfg == cfgs[0] else {"cases": []})}))
         vlib.tlc_require_ok(r, "Dataflow (dense) " + cfg)
         states += r.distinct
         gen += r.generated
@@ -252,7 +264,7 @@ def replay_dense(ctx, helper, cases):
     with open(p, "w") as f:
         for c in cases:
             f.write(json.dumps(c) + "\n")
-    rc, so, se = vlib.sh([helper, "dense", "-cases", p, "-seed", str(ctx.seed), "-j", str(min(vlib.NCPU, 8))], timeout=7200)
+    rc, so, se = vlib.sh([helper, "dense", "-cases", p, "-seed", str(ctx.seed), "-j", str(WORKERS)], timeout=7200)
     if rc != 0:
         raise Inconclusive("h-dfa dense failed rc=%d: %s" % (rc, se[-2000:]))
     mism, summary = [], None
@@ -293,8 +305,8 @@ def sparse_model(ctx, cfgs, nsample):
     states = gen = 0
     walls = {}
     for cfg in cfgs:
-        r = vlib.run_tlc(ctx, "MCDataflow", cfg, workers=min(vlib.NCPU, 8), timeout=5400,
-                         extra_files={"dataflow_cases.json": json.dumps(cases_json if cfg == cfgs[0] else {"cases": []})})
+        r = vlib.run_tlc(ctx, "MCDataflow", cfg, workers=WORKERS, timeout=5400,
+                         extra_files=dict(capped_cfg(cfg), **{"dataflow_cases.json": json.dumps(cases_json if cfg == cfgs[0] else {"cases": []})}))
         vlib.tlc_require_ok(r, "Dataflow (sparse) " + cfg)
         states += r.distinct
         gen += r.generated
@@ -347,7 +359,7 @@ def sparse_validate(ctx, helper, files, srcs, runs, negative=True):
             if nd["kind"] == "table":
                 tables[(len(nd["ops"]), tuple(nd["table"]))] = True
     tlist = [{"k": k, "table": list(t)} for (k, t) in sorted(tables)]
-    r = vlib.run_tlc(ctx, "SparseObs", "SparseObs.cfg", workers=min(vlib.NCPU, 8), timeout=3600,
+    r = vlib.run_tlc(ctx, "SparseObs", "SparseObs.cfg", workers=WORKERS, timeout=3600,
                      extra_files={"sparse_obs.json": json.dumps({"fns": fns, "tables": tlist})}, extra_args=["-continue"])
     if "TablesMonotone" in violated_invariants(r):
         raise Inconclusive("SparseObs: a tabulated toy transfer function is not monotone (harness problem)")
@@ -416,6 +428,8 @@ def run(ctx):
         dcfgs, nd = ["MCDataflow_dense_all4.cfg", "MCDataflow_dense_n3.cfg", "MCDataflow_dense_c3all.cfg"], 20000
         scfgs, ns = ["MCDataflow_sparse_all.cfg"], 3000
         nfuncs, runs = 1000, 25
+    if CAP:
+        nd, ns, nfuncs = min(nd, CAP), min(ns, CAP), min(nfuncs, max(20, CAP // 10))
     cases, dstates, dgen, dwalls, dsum, nmism = dense_model_and_replay(ctx, helper, dcfgs, nd)
 
     # 3. sparse solver: model checking of every pop order
